@@ -267,6 +267,8 @@ def strict_eq(a, b):
         return True
     if isinstance(a, list):
         return len(a) == len(b) and all(strict_eq(x, y) for x, y in zip(a, b))
+    if isinstance(a, float) and a != a:
+        return b != b           # NaN (the JSON decoder accepts the literal NaN): equal to itself here
     return a == b
 
 
@@ -1047,6 +1049,8 @@ SUBS = [
 ]
 
 REGRESSIONS = [
+    # false alarm of the harness found by the thorough tier (NaN != NaN), corrected in strict_eq
+    Reg("json-nan-scalar", "json", {"kind": "garbage", "lines": ["NaN"], "noise": 0, "value": None}),
     Reg("single-line-upper", "command", {"lines": ["bash: foo: Command Not Found"], "extra": None}),
     Reg("single-phrase-multiline-accepted", "command", {"lines": ["a", "ls: x: No such file or directory"], "extra": None}),
     Reg("multi-phrase", "command", {"lines": ["a", "Missing Dependencies: x"], "extra": None}),
